@@ -693,13 +693,20 @@ def discovered_state(ctx, pkg, rule="R3"):
         for n in ast.walk(pkg.modules[f]):
             if isinstance(n, ast.ClassDef):
                 a = set()
+                i = inst.setdefault(n.name, set())
+                # the annotated names of a @dataclass / NamedTuple body are the FIELDS of its instances (the generated __init__ binds them
+                # on self; a mutable class-level default is refused by dataclasses), not class attributes -- ClassVar aside; a bare
+                # annotation `x: T` binds nothing in any class
+                record = any("dataclass" in ast.unparse(d) for d in n.decorator_list) or any(ast.unparse(b).split(".")[-1] == "NamedTuple" for b in n.bases)
                 for st in n.body:
                     if isinstance(st, ast.Assign):
                         a |= {t.id for t in st.targets if isinstance(t, ast.Name)}
                     elif isinstance(st, ast.AnnAssign) and isinstance(st.target, ast.Name):
-                        a.add(st.target.id)
+                        if record and "ClassVar" not in ast.unparse(st.annotation):
+                            i.add(st.target.id)
+                        elif st.value is not None:
+                            a.add(st.target.id)
                 classattrs.setdefault(n.name, set()).update(a)
-                i = inst.setdefault(n.name, set())
                 for m in ast.walk(n):
                     if isinstance(m, (ast.Assign, ast.AugAssign, ast.AnnAssign)):
                         for t in (m.targets if isinstance(m, ast.Assign) else [m.target]):
@@ -1080,7 +1087,25 @@ def krome_reset(ctx, pkg, rule="R4"):
                           f"the per-file reset of the format class (in `{h}`) is skipped when `{extra[0]}` does not hold: directive state (@format, @common, @var) of the previous file "
                           "decodes the next one", expected=f"{_src(recv)[:60]}.initialize() on every path that reads", found=" and ".join(extra))
                 continue
-        ok = len(init_calls) == 1 and bool(reads_lines) and init_calls[0].line < min(reads_lines)
+        if not init_calls:
+            # no `.initialize()` in the method or a private helper of Network.  Called from somewhere else in the module (a context
+            # manager, a module-level function, a helper class)?  then where and when is not decided here; called nowhere: the reset is gone
+            mod = pkg.modules[NF]
+            own = {id(n) for n in ast.walk(fn)}
+            elsewhere = [n for n in ast.walk(mod) if isinstance(n, ast.Call) and isinstance(n.func, ast.Attribute) and n.func.attr == "initialize" and id(n) not in own] + \
+                        [n for n in ast.walk(mod) if isinstance(n, ast.Constant) and n.value == "initialize"]
+            if elsewhere:
+                ctx.unrec(rule, f"Network.{mname}:initialize before reading", (NF, fn.lineno),
+                          f"the format class is not initialised in {mname} itself but elsewhere in the module (line {elsewhere[0].lineno}): order and conditions are not decided")
+            else:
+                ctx.bad(rule, f"Network.{mname}:initialize before reading", (NF, fn.lineno), "the format class is initialised before any line is parsed",
+                        expected="<format class>.initialize() before the lines are read", found="no call of initialize() in naunet/network.py")
+            continue
+        if len(init_calls) != 1 or not reads_lines:
+            ctx.unrec(rule, f"Network.{mname}:initialize before reading", (NF, fn.lineno),
+                      f"expected one call of initialize() and a call of self._add_reaction(..) in {mname}: found {len(init_calls)} / {len(reads_lines)}")
+            continue
+        ok = init_calls[0].line < min(reads_lines)
         ctx.check(ok, rule, f"Network.{mname}:initialize before reading", (NF, fn.lineno), "the format class is initialised before any line is parsed")
         # ... for EVERY file / string: the only condition it may depend on is that the format class exists
         if len(init_calls) == 1:
